@@ -56,6 +56,7 @@ pub fn replay(case: &Value) -> Vec<Violation> {
         "weak_selection" => c06::replay_weak(case),
         "reused_holder" => c06::replay_reused(case),
         "c12_order" => c12::replay_order(),
+        "c12_run_dup" => c12::replay_run_dup(case),
         "reserved" => c13::replay(case),
         "c16" => c16::replay(case),
         "narrow" => c15::replay(case),
